@@ -9,7 +9,7 @@ import BU.Driver.Keys
 stdout.  Imports Model/Spec/Crypto only — never `BU.Gen.*`, never Mathlib. -/
 open Driver
 
-def allOps : List (String × (Model.Tables → R String)) := wireOps ++ timelockOps ++ blockOps ++ digestOps ++ taprootOps ++ keyOps
+def allOps : List (String × (Model.Tables → R String)) := wireOps ++ timelockOps ++ blockOps ++ digestOps ++ taprootOps ++ keyOps ++ keyOps2
 
 def handle (T : Model.Tables) (line : String) : Model.Tables × String :=
   match (line.splitOn " ").filter (· ≠ "") with
